@@ -215,11 +215,12 @@ CHECKS = {
         'harnesses': [
             {'fn': C + 'H_C10_1_OneCall', 'over': {'max-paths': 200000}, 'must_reach': ['call1-success-path', 'call1-failure-path']},
             {'fn': C + 'H_C10_3_Views', 'must_reach': ['after-successful-transfer']},
-            {'fn': C + 'H_C10_2_TwoCalls', 'over': {'max-paths': 600000}, 'thorough_only': True},
+            {'fn': C + 'H_C10_2_TwoCalls', 'must_reach': ['spend-after-approve', 'call2-success-path', 'call2-failure-path']},
+            {'fn': C + 'H_C10_2b_AnyThenSpend', 'over': {'max-paths': 600000}, 'thorough_only': True, 'must_reach': ['call2-success-path', 'call2-failure-path']},
         ],
         'level_text': 'Inductive step by bounded symbolic execution: from an arbitrary symbolic bank ledger and allowance table, one state-changing ERC-20 call (transfer, transferFrom, approve, burn, burnFrom; caller and address arguments over {3 accounts, zero address, cpc module account}; amount in [0, 2^256)) is run through the fork\'s real EVM.Call -> RunPrecompiledContract -> RunCustom -> the repo\'s wrapper and executors (precompiles wired by the real Keeper.NewEVM), and compared by z3 with a reference ERC-20 ledger: success iff the reference allows, exact amounts, exactly one matching log, allowance rule incl. the infinite allowance, nothing else touched, failure changes nothing; the views equal bank state, also under STATICCALL.',
         'level_note': 'ABI encoding/decoding and the JSON of the typed metadata are inverse-pair models; bank is the model mirroring the SDK. Native replay uses the real ABI codec and real bank keeper.',
-        'bounds': ['4 holders (3 accounts + cpc module account) with symbolic balances < 2^128, supply = sum + rest', 'the allowance the call depends on and one bystander allowance: none / zero / finite symbolic / infinite', 'quick: 1 call; thorough: 2 calls'],
+        'bounds': ['4 holders (3 accounts + cpc module account) with symbolic balances < 2^128, supply = sum + rest', 'the allowance the call depends on and one bystander allowance: none / zero / finite symbolic / infinite', 'quick: 1 arbitrary call; approve by X1 for X2 followed by any call of X2 on the state the approve left; thorough: an arbitrary call followed by transferFrom / burnFrom of X2 from X1 (arbitrary pairs of calls are 6331^2 paths: covered by the inductive step, not enumerated)'],
         'outside': ['ABI byte-level decoding', 'x/bank internals', 'calls made from contract bytecode (the caller is an address; the precompile sees only caller.Address())'],
         'assumptions': TX_ASSUMPTIONS,
     },
